@@ -53,7 +53,12 @@ def _msm_true_keys(eng, universe):
             pick = [e for e in rets if e not in on_exc] if key in eng.tables.msgids else on_exc
             if len(pick) == 1 and is_const(pick[0].term):
                 rets = pick
-        if len(rets) == 1 and is_const(rets[0].term):
+        from .util import certain_raise as _cr
+
+        raising = next((r_ for r_ in (_cr(e.term) for e in rets) if r_), None)
+        if raising:
+            res[key] = ("raises", raising, rets[0].node)
+        elif len(rets) == 1 and is_const(rets[0].term):
             res[key] = bool(rets[0].term[1])
         else:
             hret = [e for e in s2.effects if e.kind == "return" and e.handler is not None]
@@ -167,6 +172,11 @@ def run(eng, ctx):
                        "(guard and attribute sets evaluated over the finite universe of identities)")
     universe = sorted(set(T.msgids) | set(attrs) | {str(n) for n in range(4096)})  # every 12-bit message number + all defined identities
     ismsm = _msm_true_keys(eng, universe)
+    raising_ = [(k, v) for k, v in ismsm.items() if isinstance(v, tuple)]
+    for k, v in raising_[:3]:
+        mf = eng.repo.func(f"{eng.message_cls}.ismsm")
+        ctx.bad("C18.D4", pm.qualname, f"guard for identity {k!r}", expected="the helper returns None for every message that is not an MSM message", found=f"the MSM predicate raises {v[1]}: the helper raises instead", **eng.loc(mf, v[2]))
+    ismsm = {k: (None if isinstance(v, tuple) else v) for k, v in ismsm.items()}
     fails = []
     passed = 0
     undec = []
